@@ -2,12 +2,12 @@ SPECIFICATION ShardSpec
 CONSTANTS
   NK = 2
   MaxVal = 9
-  NG = 2
+  NG = 3
   NSlots = 2
   MaxOps = 1
   Modes = {"locked", "dcl"}
   Forced = FALSE
-  OpSet <- OpsAll
+  OpSet = {"SetValue", "GetOrCreate", "Value", "RemoveValue"}
 INVARIANTS ShardTypeOK Refines ContentAgrees OrphanEmpty LenAtRest
 PROPERTY SlotStable
 CHECK_DEADLOCK FALSE
